@@ -63,41 +63,47 @@ func c45(c *engine.Ctx) {
 		if f == nil {
 			return
 		}
-		info := f.Info()
-		sites := f.CallsTo(cjBtc + ".ConvertBits")
+		// the regrouping call may sit in a private helper: look through in-program callees
+		sites := f.DeepCallsTo(2, cjBtc+".ConvertBits")
 		if len(sites) != 1 {
-			c.Check("convert-mirror", f.Name+" ConvertBits", f.Pos(), false, "expected exactly one ConvertBits call")
+			c.Check("convert-mirror", f.Name+" ConvertBits", f.Pos(), false, "expected exactly one ConvertBits call (directly or through helpers)")
 			return
 		}
 		nm++
-		a := sites[0].Call.Args
+		d := sites[0]
+		inner := d.Inner
+		info := inner.Fn.Info()
+		a := inner.Call.Args
 		fv, ok1 := cjConstOf(info, a[1])
 		tv, ok2 := cjConstOf(info, a[2])
 		pv, ok3 := cjConstBool(info, a[3])
 		ok := ok1 && ok2 && ok3 && fv == from && tv == to && pv == pad
-		c.Check("convert-mirror", f.Name+" ConvertBits groups/pad", sites[0].Pos(), ok,
-			"ConvertBits must be called with constant (from,to,pad) = "+strings.Join([]string{strconv.FormatInt(from, 10), strconv.FormatInt(to, 10), strconv.FormatBool(pad)}, ",")+"; got "+strings.Join(cjArgTexts(sites[0].Call)[1:], ","))
-		// the source operand
+		c.Check("convert-mirror", f.Name+" ConvertBits groups/pad", d.Outer.Pos(), ok,
+			"ConvertBits must be called with constant (from,to,pad) = "+strings.Join([]string{strconv.FormatInt(from, 10), strconv.FormatInt(to, 10), strconv.FormatBool(pad)}, ",")+"; got "+strings.Join(cjArgTexts(inner.Call)[1:], ","))
+		// the source operand, expressed in f's own variables
+		opnd, in := cjChainArg(f, d, a[0])
 		srcOK := false
-		switch src {
-		case "param":
-			srcOK = engine.ObjOf(info, a[0]) == cjParam(f, "data") && cjParam(f, "data") != nil
-			if !srcOK { // any parameter of slice type is fine
-				for i := 0; i < 2; i++ {
-					if po := paramObj(f, i); po != nil && engine.ObjOf(info, a[0]) == po {
+		if in == f {
+			obj := engine.ObjOf(f.Info(), opnd)
+			switch src {
+			case "param":
+				for i := 0; i < 4; i++ {
+					if po := paramObj(f, i); po != nil && obj == po {
+						if _, isSlice := po.Type().Underlying().(*types.Slice); isSlice {
+							srcOK = true
+						}
+					}
+				}
+			case "decoded":
+				for _, dd := range f.DeepCallsTo(2, cjBtc+".Decode*") {
+					objs := cjAssignedFrom(f, dd.Outer)
+					if len(objs) >= 2 && objs[1] != nil && obj == objs[1] {
 						srcOK = true
 					}
 				}
 			}
-		case "decoded":
-			for _, d := range f.CallsTo(cjBtc + ".Decode*") {
-				objs := cjAssignedFrom(f, d)
-				if len(objs) >= 2 && objs[1] != nil && engine.ObjOf(info, a[0]) == objs[1] {
-					srcOK = true
-				}
-			}
 		}
-		c.Check("convert-mirror", f.Name+" ConvertBits operand", sites[0].Pos(), srcOK, "the regrouped bytes must be the "+src+" data")
+		c.Check("convert-mirror", f.Name+" ConvertBits operand", d.Outer.Pos(), srcOK, "the regrouped bytes must be the "+src+" data")
 	}
 	mirror(enc, 8, 5, true, "param")
 	mirror(dec, 5, 8, false, "decoded")
@@ -106,14 +112,14 @@ func c45(c *engine.Ctx) {
 	// (2) error results gate every use.
 	ne := 0
 	gate := func(f *engine.Fn, vIdx int, callee ...string) {
-		sf := cjSSA(c, p, f)
-		if sf == nil {
+		if f == nil {
 			return
 		}
-		for _, call := range cjSSACalls(sf, callee...) {
+		_ = vIdx // the verdict is the last result at every level of the chain
+		for _, d := range f.DeepCallsTo(2, callee...) {
 			ne++
-			ok, why := cjUsesGated(call, vIdx)
-			c.Check("err-checked", f.Name+" -> "+cjCalleeName(call), call.Pos(), ok, why)
+			ok, why := cjDeepVerdict(c, p, f, d)
+			c.Check("err-checked", f.Name+" -> "+d.Inner.CalleeName(), d.Outer.Pos(), ok, why)
 		}
 	}
 	if enc != nil {
@@ -157,7 +163,7 @@ func c45(c *engine.Ctx) {
 	}
 	c.Floor("lib-surface", nrefs, 3)
 	if dec != nil {
-		c.Check("lib-surface", dec.Name+" decodes through the library", dec.Pos(), len(dec.CallsTo(cjBtc+".Decode*")) == 1, "DecodeAndConvert must call exactly one btcutil Decode* function")
+		c.Check("lib-surface", dec.Name+" decodes through the library", dec.Pos(), len(dec.DeepCallsTo(2, cjBtc+".Decode*")) == 1, "DecodeAndConvert must reach exactly one btcutil Decode* call")
 	}
 	var importers []string
 	for path, pk := range p.ByPath {
@@ -194,41 +200,28 @@ func c45(c *engine.Ctx) {
 			if h == nil {
 				why = "the decoded prefix is discarded"
 			} else {
-				for _, r := range *h.Referrers() {
-					b, isb := r.(*ssa.BinOp)
-					if !isb || (b.Op != token.NEQ && b.Op != token.EQL) {
-						continue
-					}
-					other := b.Y
-					if b.Y == h {
-						other = b.X
-					}
-					match := false
-					switch o := other.(type) {
+				isOther := func(o ssa.Value) bool {
+					switch x := o.(type) {
 					case *ssa.Parameter:
-						match = expect == "param:"+o.Name()
-					case *ssa.Call:
-						match = expect == "call:"+cjCalleeName(o)
-					}
-					if !match {
-						continue
-					}
-					good := 1
-					if b.Op == token.EQL {
-						good = 0
-					}
-					for _, rr := range *b.Referrers() {
-						if i, isIf := rr.(*ssa.If); isIf && cjEdgeDominates(i.Block(), good, ret.Block()) {
-							ok, why = true, "success return dominated by prefix equality"
+						for k, pr := range sf.Params {
+							if pr == x && expect == "param#"+strconv.Itoa(k) {
+								return true
+							}
 						}
+					case *ssa.Call:
+						return expect == "call:"+cjCalleeName(x)
 					}
+					return false
+				}
+				if cjEqualityGates(sf, h, isOther, ret.Block(), 2) {
+					ok, why = true, "success return dominated by prefix equality"
 				}
 			}
 			c.Check("hrp-compared", f.Name+" success return", ret.Pos(), ok, why)
 		}
 	}
 	if getFrom != nil {
-		hrp(getFrom, "param:prefix")
+		hrp(getFrom, "param#1")
 	}
 	if decStr != nil {
 		hrp(decStr, "call:"+K+"Bech32AddrPrefix")
